@@ -321,8 +321,29 @@ func ruleR04a(c *Check) {
 			c.Unknown("R04a", "guarded/"+key.String(), "anchor-unresolved: guarded field not found", "-")
 		}
 	}
-	for _, g := range guardTable {
+	// The guards are *inferred* on every run — field F of struct T is guarded by T's mutex field M when some
+	// function writes F while holding <base>.M — and every access to an inferred field is then checked.
+	// guardTable lists the pairs confirmed by reading the code (struct comments); it fixes the minimum the
+	// inference must find, by (type, mutex) so that renaming a guarded field does not lose the rule.
+	inferred := inferGuards(c, ls)
+	found := map[string]int{}
+	for _, g := range inferred {
+		found[g.T+"/"+g.Mutex]++
 		checkGuard(g)
+	}
+	want := map[string]int{}
+	for _, g := range guardTable {
+		want[g.T+"/"+g.Mutex]++
+	}
+	var wk []string
+	for k := range want {
+		wk = append(wk, k)
+	}
+	sort.Strings(wk)
+	for _, k := range wk {
+		if found[k] < want[k] {
+			c.Unknown("R04a", "guarded-fields/"+k, fmt.Sprintf("anchor-unresolved: %d field(s) are written under this mutex, %d were confirmed by hand: a guarded field lost its guard (or the struct changed beyond recognition)", found[k], want[k]), "-")
+		}
 	}
 	// the loader's shared package map (locals of the function that spawns the loader goroutines)
 	var lpFn *ssa.Function
@@ -403,6 +424,71 @@ func ruleR04a(c *Check) {
 			}
 		}
 	}
+}
+
+// inferGuards: (T, F, M) such that T has a sync.Mutex/RWMutex field M and some first-party function stores
+// to / updates T.F while holding <same base>.M (write lock).
+func inferGuards(c *Check, ls func(*ssa.Function) *engine.LockSets) []guard {
+	seen := map[string]bool{}
+	var out []guard
+	for _, fn := range c.P.Funcs {
+		for _, b := range fn.Blocks {
+			for _, in := range b.Instrs {
+				fa, ok := in.(*ssa.FieldAddr)
+				if !ok || !isWriteAccess(fa) {
+					continue
+				}
+				key := engine.FieldKeyOf(fa.X.Type(), fa.Field)
+				if !engine.IsFirstParty(typePkgOf(fa.X.Type())) {
+					continue
+				}
+				st := structOf(fa.X.Type())
+				if st == nil {
+					continue
+				}
+				ft := st.Field(fa.Field).Type().String()
+				if ft == "sync.Mutex" || ft == "sync.RWMutex" || ft == "sync.Once" || ft == "sync.WaitGroup" {
+					continue
+				}
+				held := ls(fn).Held(fa)
+				base := engine.ExprKey(fa.X)
+				for i := 0; i < st.NumFields(); i++ {
+					mt := st.Field(i).Type().String()
+					if mt != "sync.Mutex" && mt != "sync.RWMutex" {
+						continue
+					}
+					m := st.Field(i).Name()
+					if held[base+"."+m] {
+						id := key.String() + "/" + m
+						if !seen[id] {
+							seen[id] = true
+							out = append(out, guard{key.T, key.F, m, "inferred: written while holding " + m})
+						}
+					}
+				}
+			}
+		}
+	}
+	sort.Slice(out, func(i, j int) bool { return out[i].T+out[i].Field < out[j].T+out[j].Field })
+	return out
+}
+
+func structOf(t types.Type) *types.Struct {
+	if p, ok := t.Underlying().(*types.Pointer); ok {
+		t = p.Elem()
+	}
+	st, _ := t.Underlying().(*types.Struct)
+	return st
+}
+
+func typePkgOf(t types.Type) string {
+	if p, ok := t.Underlying().(*types.Pointer); ok {
+		t = p.Elem()
+	}
+	if n, ok := types.Unalias(t).(*types.Named); ok && n.Obj().Pkg() != nil {
+		return n.Obj().Pkg().Path()
+	}
+	return ""
 }
 
 func isWriteAccess(fa *ssa.FieldAddr) bool {
